@@ -181,6 +181,21 @@ RoundTrip ==
                                                    !.data = Drop(m.data, IF m.offset = << >> THEN 0 ELSE m.offset[1])]]
               /\ d.rem = 0
 
+\* Refinement: the positions of every step taken here are a step of the integer abstraction EncLenMachine,
+\* whose Safe is proved inductive for writers, AVP counts and payloads of any size (Apalache).
+AbsKind == IF st.kind = "avp" THEN "avp" ELSE IF st.val.k = "Control" THEN "ctl" ELSE "data"
+ELM == INSTANCE EncLenMachine WITH
+         MaxStart <- 100000000, MaxAvps <- 100000000, PayMax <- 100000000, AvpLimit <- MaxAvpLength,
+         MsgLimit <- MaxMessageLength, EOff <- {},
+         pc <- st.pc, kind <- AbsKind, wlen <- Len(st.buf), base <- st.base, start <- st.start,
+         lenpos <- st.lenpos, astart <- st.astart, left <- Len(st.todo),
+         ptype <- IF st.patch = << >> THEN "none" ELSE IF st.pc = "done" THEN "msg" ELSE "avp",
+         poff <- IF st.patch = << >> THEN 0 ELSE st.patch.off,
+         pval <- IF st.patch = << >> THEN 0 ELSE st.patch.val,
+         panic <- st.panic
+RefinesEncLen == [][ELM!Next]_<<st, prefix, trail>>
+AbsEncInv == ELM!Safe /\ ELM!IndInv
+
 \* the direct (fast) big-step definition used by trace validation equals what the machine computes
 FastEqualsMachine ==
   st.pc = "done" =>
